@@ -3,6 +3,8 @@ package main
 import (
 	"fmt"
 	"math/rand"
+	"sort"
+	"strings"
 
 	circuit "github.com/cep21/circuit/v4"
 	"github.com/cep21/circuit/v4/metrics/rolling"
@@ -34,6 +36,7 @@ func (mgrScenario) Build(cfg string) ([]func(), func(*vsched.Sched) []string) {
 		sf = &rolling.StatFactory{}
 		m.DefaultCircuitProperties = append(m.DefaultCircuitProperties, sf.CreateConfig)
 	}
+	nameVars(m, "mgr")
 	ops := cfgStr(cfg, "ops")
 	type res struct {
 		c   *circuit.Circuit
@@ -90,6 +93,43 @@ func (mgrScenario) Build(cfg string) ([]func(), func(*vsched.Sched) []string) {
 		}
 		if n := len(m.AllCircuits()); n != created {
 			problems = append(problems, fmt.Sprintf("AllCircuits has %d entries, %d creations succeeded", n, created))
+		}
+		// results, appended to the trace for the model conformance (K2): a circuit is identified by the index of the
+		// thread whose CreateCircuit returned it
+		creator := func(c *circuit.Circuit) string {
+			if c == nil {
+				return "nil"
+			}
+			for j, o := range ops {
+				if (o == 'c' || o == 'o') && results[j].err == nil && results[j].c == c {
+					return fmt.Sprint(j)
+				}
+			}
+			return "unknown"
+		}
+		for i, op := range ops {
+			switch op {
+			case 'c', 'o':
+				if results[i].err == nil {
+					s.Trace = append(s.Trace, fmt.Sprintf("R %d created", i))
+				} else {
+					s.Trace = append(s.Trace, fmt.Sprintf("R %d exists", i))
+				}
+			case 'g':
+				s.Trace = append(s.Trace, fmt.Sprintf("R %d got %s", i, creator(results[i].c)))
+			case 'a':
+				ids := []int{}
+				for _, c := range results[i].all {
+					var k int
+					if _, err := fmt.Sscan(creator(c), &k); err == nil {
+						ids = append(ids, k)
+					} else {
+						ids = append(ids, -1)
+					}
+				}
+				sort.Ints(ids)
+				s.Trace = append(s.Trace, fmt.Sprintf("R %d all %s", i, strings.Trim(strings.Replace(fmt.Sprint(ids), " ", ",", -1), "[]")))
+			}
 		}
 		if sf != nil && winner != nil && sf.RunStats("x") != rolling.FindCommandMetrics(winner) {
 			problems = append(problems, "the stat factory's stats for the name are not the ones attached to the live circuit")
